@@ -14,7 +14,7 @@ pub fn run(o: &Opts) -> Report {
     while done < n_cmds {
         let mut cv = gen_conventional(&mut rng, true);
         let Some(&lastp) = cv.pos.last() else { continue };
-        if cv.cmd.args[lastp].num_vals.is_none() { continue; }
+        if !is_multi(&cv.cmd.args[lastp]) { continue; }
         // the tail-receiving positional takes bytes as they are
         cv.cmd.args[lastp].delim = None;
         if rng.chance(1, 2) { cv.cmd.args[lastp].vp = Some(VpS::Os); }
